@@ -31,6 +31,7 @@ func checkC01(c *Ctx, r *Report) {
 	c01NsecBlockRange(c, r, "C01.R2.nsec-block-range")
 	typeTableStructs(c, r, "C01.R4.type-table", "wire data of that type is decoded into a struct of another record type (different name compression, text form and Go type)")
 	headerWritten(c, r, "C01.R1.header-written", "PackRR at the end of a buffer reports success without having written the record, and overwrites the last two octets of the record before it")
+	unpackExits(c, r, "C01.R1.unpack-exits", "wire data the RFC layout of the type allows is refused")
 }
 
 // sideStructs are the hand-written wire-format structs with their packers.
